@@ -185,6 +185,15 @@ func checkReply(name string, src lime.Envelope, built interface{}, want view) (f
 		rc.Err = fmt.Errorf("received as %d envelopes", len(rc.Envs))
 	}
 	wire("transport", first, rc.Err, rc.Panic)
+	// the same reply as one text message through the real WebSocket transport
+	rw := codec.ReceiveWS([][]byte{b[:len(b):len(b)]}, 2)
+	first = nil
+	if len(rw.Envs) == 1 {
+		first, rw.Err = rw.Envs[0], nil
+	} else if len(rw.Envs) > 1 {
+		rw.Err = fmt.Errorf("received as %d envelopes", len(rw.Envs))
+	}
+	wire("ws-transport", first, rw.Err, rw.Panic)
 	return
 }
 
